@@ -152,6 +152,11 @@ func boot(o *Options, dbs map[string]dbm.DB, walDir string, ownWal bool) (c *Cha
 			return nil, types.ErrUnknownBlock
 		}
 		validators := appHandle.GetValidators(appHeight)
+		if o.ValidatorsAt != nil { // fixture seam, see Options.ValidatorsAt (no counterpart in node.go)
+			if v := o.ValidatorsAt(appHeight); v != nil {
+				validators = v
+			}
+		}
 		newStatus, err := blockExec.ApplyBlock(status, blockMeta.BlockID, block, validators)
 		if err != nil {
 			return nil, err
